@@ -1,8 +1,106 @@
-(* C05 — property theorems only. *)
+(* C05 — deleting the tip restores the exact previous state (blockchain + diffdb level).
+   Property theorems only. Models: Store.DiffDB (consensus store), Chain.BlockStore (saveBlock/removeBlock and the
+   processBlock/deleteBlock batches, block cache). *)
 From Coq Require Import List NArith ZArith Bool.
-From LE Require Import Base.Lex Store.SMap Store.PebbleIter Store.DiffDB Store.DiffDBProofs Chain.BlockStore.
+From LE Require Import Base.Lex Store.SMap Store.PebbleIter Store.PebbleIterProofs Store.DiffDB Store.DiffDBProofs
+  Store.DiffDBSpec Store.DiffDBRefine Store.Diff Chain.BlockStore Chain.BlockStoreProofs.
 Import ListNotations.
+Local Open Scope N_scope.
 
+(* For every database and EVERY staged operation sequence (any views, snapshots, scans; keys created, overwritten
+   and deleted in the same block included): writing the Commit batch and then the RevertDiff batch of the stored
+   diff (encoded, then decoded) gives back the previous database as a list — byte for byte.  [encode]/[decode]
+   are any codec with the round-trip law (C08). *)
+Theorem C05_revert_commit_id : forall (encode : diff -> val) (decode : val -> option diff),
+  (forall d, decode (encode d) = Some d) ->
+  forall db root ops, sorted db -> wf_db db -> wf_key root -> Forall op_wf ops ->
+  let d := fst (run db (init_state root) ops) in
+  let batch := fst (db_Commit d) in
+  let stored := encode (snd (db_Commit d)) in
+  exists df, decode stored = Some df /\
+             apply_writes (revert_writes df) (apply_writes batch db) = db.
+Proof. exact revert_stored_diff_id. Qed.
+
+(* the same for any cache state satisfying the invariant *)
 Theorem C05_revert_commit_id_cache : forall db c, sorted db -> Inv db c ->
   apply_writes (revert_writes (diff_of c)) (apply_writes (commit_writes c) db) = db.
 Proof. exact revert_commit_id. Qed.
+
+(* the diff classifies exactly the changed keys, with their previous values *)
+Theorem C05_diff_sound : forall db c, Inv db c ->
+  (forall k, In k (d_added (diff_of c)) -> lookup db k = None /\ overlay db c k <> None) /\
+  (forall k v, In (k, v) (d_updated (diff_of c)) -> lookup db k = Some v /\ overlay db c k <> None) /\
+  (forall k v, In (k, v) (d_deleted (diff_of c)) -> lookup db k = Some v /\ overlay db c k = None).
+Proof. exact diff_sound. Qed.
+
+Theorem C05_diff_complete : forall db c k, Inv db c -> overlay db c k <> lookup db k ->
+  In k (d_added (diff_of c)) \/ (exists v, In (k, v) (d_updated (diff_of c))) \/ (exists v, In (k, v) (d_deleted (diff_of c))).
+Proof. exact diff_complete. Qed.
+
+(* every key the staged store touches carries its root prefix (DBPrefixState): the consensus-store batch never
+   collides with block records *)
+Theorem C05_staged_keys_prefixed : forall db root ops, sorted db -> wf_db db -> wf_key root -> Forall op_wf ops ->
+  forall x, In x (d_cache (fst (run db (init_state root) ops))) -> is_prefix root (fst x) = true.
+Proof. exact staged_keys_prefixed. Qed.
+
+(* removeBlock inverts saveBlock on every key outside the enumerated exceptions — the finalized-height marker,
+   the temp record of that height, the event records pruned by saveBlock — when the block's ids are fresh *)
+Theorem C05_remove_inverts_save : forall db b events fh rt keep st k,
+  sorted db -> fresh db (block_keys b) ->
+  exception (ev_bound fh (b_height b) keep) None [b_height b] k = false ->
+  lookup (apply_writes (remove_block b st) (apply_writes (save_block db b events fh rt keep) db)) k = lookup db k.
+Proof. exact remove_inverts_save. Qed.
+
+(* the whole deleteBlock batch (RevertDiff + delete diff record + removeBlock) inverts the whole processBlock batch
+   (Commit + diff record + pruning of finalized diffs + saveBlock), for every staged cache state, block contents,
+   finality advance and flags; exceptions as above plus the pruned diff records *)
+Theorem C05_delete_inverts_apply : forall db c diff_enc prune b events fh rt keep st k,
+  sorted db -> wf_db db -> Inv db c -> cache_pref [pfxState] c ->
+  fresh db (kDiff (b_height b) :: block_keys b) ->
+  exception (ev_bound fh (b_height b) keep) prune [b_height b] k = false ->
+  lookup (apply_writes (delete_batch (diff_of c) b st)
+           (apply_writes (apply_batch db c diff_enc prune b events fh rt keep) db)) k = lookup db k.
+Proof. exact delete_inverts_apply. Qed.
+
+(* removed blocks are kept retrievable as temporary blocks when requested *)
+Theorem C05_temp_block_saved : forall db b, sorted db ->
+  lookup (apply_writes (remove_block b true) db) (kTemp (b_height b)) = Some (b_block b).
+Proof. exact temp_block_saved. Qed.
+
+(* reorg confluence at batch level: databases equal outside a key set stay equal outside it under the same batch
+   (with C05_delete_inverts_apply: apply B, delete B, apply B' agrees with apply B' outside the exceptions,
+   provided B' produces the same batch — its staged reads only see consensus-store keys, which are restored) *)
+Theorem C05_same_batch_preserves_agreement : forall (W : list wr) db1 db2 (E : key -> bool), sorted db1 -> sorted db2 ->
+  (forall k, E k = false -> lookup db1 k = lookup db2 k) ->
+  forall k, E k = false -> lookup (apply_writes W db1) k = lookup (apply_writes W db2) k.
+Proof. exact same_batch_preserves_agreement. Qed.
+
+(* cached tip: the block cache stays a non-empty prefix of the chain in the database, so LastBlock() is the
+   database tip after every AddBlock / (repaired) RemoveBlock *)
+Theorem C05_cached_tip_after_add : forall maxSize c chain h id c',
+  cache_ok c chain -> bc_push maxSize c h id = Some c' -> cache_ok c' ((h, id) :: chain) /\ bc_last c' = Some (h, id).
+Proof. exact cached_tip_after_add. Qed.
+
+Theorem C05_cached_tip_after_remove : forall c chain x,
+  cache_ok c (x :: chain) -> cache_ok (bc_remove c chain) chain /\ bc_last (bc_remove c chain) = hd_error chain.
+Proof. exact cached_tip_after_remove. Qed.
+
+(* the pop of the unrepaired code alone loses the tip (witness) *)
+Theorem C05_pop_without_refill_refuted :
+  exists c chain x, cache_ok c (x :: chain) /\ chain <> [] /\ bc_last (bc_pop c) = None.
+Proof. exact pop_without_refill_loses_tip. Qed.
+
+(* non-vacuity: a block with a transaction and events, a staged create+overwrite+delete of one key, a staged
+   delete of a stored key and a staged creation; applied, then deleted with saveTemp: everything is back except
+   the temp record *)
+Example C05_example_apply_delete :
+  let db := [([4;0;0;0;1],[7]); ([10;97],[1]); ([27],[0;0;0;1])] in
+  let c := d_cache (fst (run db (init_state [10]) [OSet 0%nat [98] [5]; OSet 0%nat [98] [6]; ODel 0%nat [98];
+                                                   ODel 0%nat [97]; OSet 0%nat [99] [9]])) in
+  let b := Build_blk [8;8] 2 [100] [([9;9],[101])] None [102] in
+  let db1 := apply_writes (apply_batch db c [103] None b (Some [104]) 1 false 300) db in
+  db1 = [([3;8;8],[100]); ([4;0;0;0;1],[7]); ([4;0;0;0;2],[8;8]); ([5;8;8],[9;9]); ([6;9;9],[101]);
+         ([9;0;0;0;2],[104]); ([10;99],[9]); ([27],[0;0;0;1]); ([51;0;0;0;2],[103])]
+  /\ apply_writes (delete_batch (diff_of c) b true) db1
+     = [([4;0;0;0;1],[7]); ([7;0;0;0;2],[102]); ([10;97],[1]); ([27],[0;0;0;1])].
+Proof. vm_compute. split; reflexivity. Qed.
